@@ -4,4 +4,7 @@ let () =
   | [| _; "c14" |] -> Drv_c14.run ()
   | [| _; "c18" |] -> Drv_c18.run ()
   | [| _; "c19" |] -> Drv_c19.run ()
+  | [| _; "term" |] -> Drv_term.run ()
+  | [| _; "barrier"; _ |] -> Drv_barrier.run ()
+  | a when Array.length a >= 6 && a.(1) = "seq" -> Drv_seq.run ()
   | _ -> prerr_endline "usage: model_driver <sub>"; exit 2
